@@ -24,7 +24,7 @@ SEMIRINGS = ["Float", "Float", "Real", "Boolean", "MaxTimes", "Q"]
 
 
 def plan(tier, seed):
-    return common.plan_shards(tier, seed, n_quick=150, n_thorough=1200, budget_quick=35, budget_thorough=420, pops=True)
+    return common.plan_shards(tier, seed, n_quick=200, n_thorough=1200, budget_quick=35, budget_thorough=420, pops=True)
 
 
 def gates(tier):
@@ -33,7 +33,7 @@ def gates(tier):
         "min_decided": {a: 1500 * k for a in APIS},
         "shapes": {c: 3 * k for c in ["nullable_nonstart", "nullable_cycle", "unary_cycle", "recursive", "finite_language",
                                       "prefix:dead", "prefix:live", "sr:Q", "sr:Boolean", "sr:MaxTimes", "sr:Real",
-                                      "oracle-crosscheck"]},
+                                      "oracle-crosscheck", "derivative:tagged"]},
         "min_hashseeds": 2,
     }
 
@@ -139,7 +139,25 @@ def run_case(case, ctx):
             ok, v = ctx.call(APIS[2], c2, D[-1].treesum)
             if ok:
                 judge(APIS[2], v, want[p], c2, "derivatives.treesum")
-    for a in sorted(g["V"]):
+    # non-default tags: the derivative with respect to p[m] is tagged with its position m
+    for p in prefixes:
+        if not (1 <= len(p) <= 3):
+            continue
+        c2 = dict(case, p=list(p), tagged=True)
+
+        def tagged(p=p):
+            D = cfg
+            for m, tok in enumerate(p):
+                D = D.derivative(tok, i=m)
+            return D
+
+        ok, D = ctx.call(APIS[2], c2, tagged)
+        if ok:
+            ctx.shape["derivative:tagged"] += 1
+            ok, v = ctx.call(APIS[2], c2, D.treesum)
+            if ok:
+                judge(APIS[2], v, want[p], c2, "derivative(tagged).treesum")
+    for a in sorted(g["V"], key=repr):
         ok, D = ctx.call(APIS[3], dict(case, a=a), cfg.derivative, a)
         if not ok:
             continue
